@@ -12,6 +12,7 @@ import itertools
 import pydsdl
 
 from .. import engine
+from .. import histories as H
 from ..gen import types as T
 from ..gen import values as V
 from ..ref import codec as C
@@ -82,10 +83,13 @@ ALIAS_GROUPS = [
 
 def plan(tier):
     parts = 64 if tier == "quick" else 192
-    return [{"part": p, "parts": parts} for p in range(parts)] + [{"alias_group": g} for g in range(len(ALIAS_GROUPS))]
+    return [{"part": p, "parts": parts} for p in range(parts)] + [{"alias_group": g} for g in range(len(ALIAS_GROUPS))] + H.plan_shards(['nested-revisions', 'delimited-revisions'], 2)
 
 
 def cases(shard, tier):
+    if shard.get("kind") == "call-histories":
+        yield from H.cases_of(shard)
+        return
     if "alias_group" in shard:
         g = ALIAS_GROUPS[shard["alias_group"]]
         for a, b in itertools.permutations(range(len(g)), 2):
@@ -167,10 +171,13 @@ def check_alias(case, R: engine.Acc):
 
 
 def check_case(case, R: engine.Acc):
+    if case.get("kind") == "call-history":
+        return H.check_history_codec(case["label"], R, 'decoding-depends-on-earlier-calls', 'deserialize(T, b) depends on T (as read in THIS call) and b only')
     if "alias" in case:
         return check_alias(case, R)
     desc = case["desc"]
     t = T.build(desc)
+    T.spoil_accessors(t)  # the result depends on T and b only - not on what the caller did with the lists T's accessors returned
     modes = [False, True] if desc[0] == "delim" else [False]
     for with_header in modes:
         if "bytes" in case:
